@@ -401,6 +401,8 @@ def family_batch_codec(seed):
                 off += len(e)
                 for d in (-1, 0, 1):
                     raws.append(full[:max(0, off + d)])
+    # a batch with more operations than fit a one-byte count (seeded change C02-r9m1 read the count into a u8)
+    raws.append(batch(9 + seed, [el(1, b"k%03d" % i, b"v") if i % 5 else el(0, b"k%03d" % i) for i in range(300)]))
     raws.append(b"")
     raws.append(bytes(7))
     raws.append(batch(1, [bytes([2]) + varint(1) + b"a"]))           # unknown operation byte
@@ -560,7 +562,7 @@ BOUNDS = {
     "family_table_get": "one table of 16 entries (4 user keys x 4 versions) at block sizes 1, 64, 150, 4096 with 49 lookups, plus a one-entry table",
     "family_key_range": "three hand-written file lists",
     "family_bloom": "7 key sets (sizes 1 to 300, empty / 0x00 / 0xff keys, one pseudo-random set per seed) at 8 bits-per-key settings from 0 to 100",
-    "family_batch_codec": "5 batches of at most 4 elements (keys and values up to 300 bytes): each well formed, with the count off by one either way, cut at and one byte around every element boundary; 4 malformed buffers; 3 encodings",
+    "family_batch_codec": "a batch of 300 operations and 5 batches of at most 4 elements (keys and values up to 300 bytes): each well formed, with the count off by one either way, cut at and one byte around every element boundary; 4 malformed buffers; 3 encodings",
 }
 
 
